@@ -19,7 +19,27 @@ def main(argv):
         # files regenerated from /repo by translators must exist before the full build
         import py2coq
         print("translator:", py2coq.generate_murmur(vlib.REPO, os.path.join(vlib.COQ, "Model", "MurmurGen.v")))
-        vlib.build_all(None)
+        # Build what the claimed checks need (hard failure), then try the rest of the development (soft: a file of a
+        # property that is not claimed yet must not break the set-up of the others; every check re-builds its own
+        # dependency cone anyway).  VERIF_SETUP_FULL=1 makes the full build mandatory.
+        man = json.load(open(os.path.join(vlib.ROOT, "MANIFEST.json")))
+        claimed = [c["property_id"] for c in man.get("checks", [])]
+        targets = ["Props/%s.vo" % i for i in claimed if os.path.exists(os.path.join(vlib.COQ, "Props", i + ".v"))]
+        vlib.build_all([], targets=targets)
+        print("claimed targets built:", " ".join(claimed))
+        try:
+            vlib.build_all(None)
+            print("full development built")
+        except vlib.CheckAbort as e:
+            if os.environ.get("VERIF_SETUP_FULL"):
+                raise
+            print("NOTE: full build incomplete (files outside the claimed checks):", str(e)[-600:])
+            for ex in sorted(os.listdir(os.path.join(vlib.COQ, "Run"))):
+                if ex.startswith("Ex") and ex.endswith(".v"):
+                    try:
+                        vlib.build_all([ex[2:-2].lower()], targets=[])
+                    except vlib.CheckAbort as e2:
+                        print("NOTE: runner %s not built: %s" % (ex, str(e2)[-200:]))
         print("setup ok")
         return 0
     if argv[0] == "--replay":
